@@ -43,9 +43,9 @@ TConnect == IsEvent("Connect") /\ Run /\ Len(Ev.lep) = 2
             /\ Connect(Ev.c, Ev.conn, Ep(Ev.lep), Ep(Ev.target), Ev.mss)
 
 TWire == /\ IsEvent("Wire") /\ Run0 /\ WPush(WKey, Ev.hop) /\ Ev.conn \in DOMAIN cn
-         /\ CASE Ev.kind = "syn" -> /\ Ep(Ev.from) = cn[Ev.conn].cep
-                                     /\ IF Ev.nth = 1 THEN cn[Ev.conn].phase = "syn" /\ UNCHANGED tvars0
-                                        ELSE SynResent(Ev.conn)
+         /\ CASE Ev.kind = "syn" -> \* (a re-sent SYN is the packet that came back: its source may already be translated)
+                                     IF Ev.nth = 1 THEN Ep(Ev.from) = cn[Ev.conn].cep /\ cn[Ev.conn].phase = "syn" /\ UNCHANGED tvars0
+                                     ELSE Ep(Ev.from) \in {cn[Ev.conn].cep, Visible(cn[Ev.conn].cep)} /\ SynResent(Ev.conn)
               [] Ev.kind = "syn_ack" -> SynAck(Ev.conn)
               [] Ev.kind = "payload" -> IF Ev.nth = 1 THEN SendSeg(K, Ev.seq, Ev.len) ELSE Resend(K, Ev.seq, Ev.len)
               [] Ev.kind = "error" -> SendEof(K, Ev.seq)
